@@ -358,6 +358,7 @@ def execOp (d : D) (t : Toks) : D × String :=
     | none => (d, "bad")
   | ["pop"] =>
     if parked d then (d, "refused")
+    else if d.s.nWorkers != 0 && liveWorkers d.s ≥ d.s.nWorkers then (d, "busy")   -- no idle worker in the pool
     else match choosePop d.s d.npeers with
       | none =>
         -- PopTasks looked at the first tracker in the static order; an idle one is removed
@@ -420,7 +421,7 @@ def stepLine (d : D) (t : Toks) : D × String :=
     let np := (natArg t 1).getD 0
     let s0 : State := { limit := (natArg t 2).getD 0, leafLen := (natArg t 3).getD 0,
                         innerLen := (natArg t 4).getD 0, extLen := (natArg t 5).getD 0,
-                        maxActive := (natArg t 6).getD 0 }
+                        maxActive := (natArg t 6).getD 0, nWorkers := (natArg t 7).getD 0 }
     let s1 := (List.range np).foldl (fun s p => ensureParked s p) s0
     let (d1, snap) := snapshot { s := s1, ready := true, npeers := np }
     (d1, "ok " ++ snap)
